@@ -87,10 +87,63 @@ func (fe *FuncEnc) contentOf(st *State, t Term) string {
 	return fe.bytesContent(st, t.S)
 }
 
+// constRegexOf: the pattern literal when v is the value of an immutable package-level variable initialised by
+// regexp.MustCompile("literal") (read from the init function's SSA on every run).
+func (eng *Engine) constRegexOf(v ssa.Value) (string, bool) {
+	u, ok := v.(*ssa.UnOp)
+	if !ok {
+		return "", false
+	}
+	g, ok := u.X.(*ssa.Global)
+	if !ok || !eng.immutableGlobal(g) {
+		return "", false
+	}
+	init := g.Pkg.Func("init")
+	if init == nil {
+		return "", false
+	}
+	for _, b := range init.Blocks {
+		for _, in := range b.Instrs {
+			s, ok := in.(*ssa.Store)
+			if !ok || s.Addr != ssa.Value(g) {
+				continue
+			}
+			call, ok := s.Val.(*ssa.Call)
+			if !ok {
+				return "", false
+			}
+			f := call.Common().StaticCallee()
+			if f == nil || fullName(f) != "regexp.MustCompile" {
+				return "", false
+			}
+			c, ok := call.Common().Args[0].(*ssa.Const)
+			if !ok || c.Value == nil {
+				return "", false
+			}
+			pat, err := unquoteGo(c.Value.ExactString())
+			if err != nil {
+				return "", false
+			}
+			return pat, true
+		}
+	}
+	return "", false
+}
+
 // libModel: models needing the instruction context (fresh values, variadics).
 func (fr *Frame) libModel(c ssa.CallInstruction, fn *ssa.Function, st *State, a []Term) ([]Term, bool) {
 	fe := fr.fe
 	name := fullName(fn)
+	if name == "(*regexp.Regexp).MatchString" {
+		if pat, ok := fe.eng.constRegexOf(c.Common().Args[0]); ok {
+			if t, err := regexMatchTerm(pat, a[1].S); err == nil {
+				n := fe.define(fe.fresh(fr.prefix+"MatchString"), SBool, t)
+				fe.libTrusted("regexp: literal pattern " + fmt.Sprintf("%q", pat) + " translated to an SMT regular language")
+				return []Term{{n, SBool, types.Typ[types.Bool]}}, true
+			}
+		}
+		return nil, false
+	}
 	if !libNeutral[name] {
 		return nil, false
 	}
